@@ -7,6 +7,7 @@ import datetime
 import decimal
 import itertools
 import typing
+from typing import Literal  # noqa: F401  (named by the string aliases below)
 import warnings
 
 from typelib.py import compat
@@ -20,7 +21,8 @@ _counter = itertools.count()
 BASES = [("int", int, ["7", 3, "x"]), ("When", datetime.date, ["2020-01-02", 86400, "nope"]),
          ("Decimal", decimal.Decimal, ["1.50", 2, "abc"]), ("list[int]", list[int], ['["1", 2]', (3, "4"), "zz"]),
          ("Point", tp.Point, [{"x": "1", "y": "2.5"}, '{"x": 3}', {"y": 1}]),
-         ("Optional[int]", typing.Optional[int], [None, "5", "q"])]
+         ("Optional[int]", typing.Optional[int], [None, "5", "q"]),
+         ("Literal['r','w']", typing.Literal["r", "w"], ["r", b"w", "x"])]
 globals()["Point"] = tp.Point
 
 
@@ -109,10 +111,14 @@ def search(stop_at=1, max_len=2):
                         if stop_at and len(fails) >= stop_at:
                             return fails, n, len(distinct)
     # string / ForwardRef references (explicit module, qualified name, nested call depth)
-    refs = [("string alias", compat.TypeAliasType("SA_When", "When"), datetime.datetime),
-            ("ForwardRef(module=...)", typing.ForwardRef("Point", module=MODULE), tp.Point)]
-    for rname, R, plain in refs:
-        for x in ({"x": "1"}, "2020-01-02T03:04:05+00:00"):
+    refs = [("string alias", compat.TypeAliasType("SA_When", "When"), datetime.datetime, ({"x": "1"}, "2020-01-02T03:04:05+00:00")),
+            ("ForwardRef(module=...)", typing.ForwardRef("Point", module=MODULE), tp.Point, ({"x": "1"}, "2020-01-02T03:04:05+00:00")),
+            # a reference whose *text* starts like a special form is still a reference
+            ("string alias of a Literal", compat.TypeAliasType("SA_Mode", "Literal['r', 'w']"), typing.Literal["r", "w"], ("r", "x")),
+            ("list of a string alias of a Literal", list[compat.TypeAliasType("SA_Mode2", "Literal['r', 'w']")],
+             list[typing.Literal["r", "w"]], (["r", "w"], ["x"]))]
+    for rname, R, plain, xs in refs:
+        for x in xs:
             n += 1
             distinct.add((rname,))
 
